@@ -562,6 +562,10 @@ def year_alignment_rule(R, lib, T):
                     latest[s.a[0]] = (pol_recv, Canon(env=dict(env), fold_global=lib.global_value)(v.a[2][1]))
                 elif v.k == 'call' and v.a[0].endswith('::findZoneEra') and len(v.a[2]) == 2:
                     eras[s.a[0]] = Canon(env=dict(env), fold_global=lib.global_value)(v.a[2][1])
+                elif cxx.int_type(s.a[1]) and not any(x.k == 'call' for x in walk_expr(v)) and not any(
+                        y.k == 'assign' and y.a[0].k == 'var' and y.a[0].a[0] == s.a[0] for y in walk_stmts(f.body)):
+                    # a year held in a local (a parameter of an inlined helper, a hoisted sub-expression)
+                    env[s.a[0]] = Canon(env=dict(env), fold_global=lib.global_value)(s.a[2])
             for e0 in stmt_exprs(s):
                 for e in walk_expr(e0):
                     if not (e.k == 'call' and e.a[0] == BASIC + '::addTransition' and len(e.a[2]) == 4):
